@@ -396,8 +396,9 @@ for which there is a map `f` from the nodes of `p` to the nodes of `d.plan` with
 * `f root = root`; node `f i` of `d.plan` is node `i` of `p` with its child references mapped by `f`
   (same kind, jet, word, fail entropy, assertion hash);
 * `d.arrows[f i] = arrows[i]`, `d.annots[f i] = an[i]` (identity Merkle root, identity root,
-  annotated root, cost) — hence also the same commitment root, which is a function of the
-  structure;
+  annotated root, cost);
+* the commitment roots `Prog.cmrs` of `d.plan` are, at `f i`, those of `p` at `i` (in particular the
+  commitment root of the program);
 * the witness bits returned for node `f i` are those of witness node `i`;
 * every node of `d.plan` is `f i` for some `i`, or the hidden placeholder of an assertion;
 * re-encoding `d` gives `(pb, wb)` again.
@@ -427,6 +428,8 @@ theorem roundtrip_general (tb : Tables) (hof : ∀ j, tb.ofName (tb.nameOf j) = 
         d.annots.getD (f i) default = an.getD i default ∧
         (nd = .witness → (d.wits.find? (·.1 = f i)).map (·.2) = wit i)) ∧
       (∀ j nd', d.plan[j]? = some nd' → (∃ h, nd' = .hidden h) ∨ ∃ i, i < p.size ∧ f i = j) ∧
+      (∀ cp, cmrs tb.jetCmr p = some cp → ∃ cq, cmrs tb.jetCmr d.plan = some cq ∧
+        ∀ i, i < p.size → cq.getD (f i) 0 = cp.getD i 0) ∧
       encode tb.jc tb.ofName d.plan d.annots true (fun i => (d.wits.find? (·.1 = i)).map (·.2)) =
         some (pb, wb) :=
   Prog.roundtrip_general tb hof hnm p arrows an wit hpos hlt hb hpl hh hfb hopen hall hinf han hwt hf
